@@ -65,3 +65,16 @@ Print Assumptions C07_rpc_late_frames_harmless.
 Theorem C07_rpc_cancel_frame_once : forall strict ls s, rrun strict r_init ls = Some s -> gc_run (h_c s) <> GcBad.
 Proof. exact rpc_client_frames_conform. Qed.
 Print Assumptions C07_rpc_cancel_frame_once.
+(* ends that RPC at the caller without waiting for the peer: once the context has ended and until the
+   caller has its terminal result, a step of the client's own goroutines is enabled (no frame delivery,
+   no server step), and that internal activity terminates *)
+From GT Require Import RpcInv RpcProgress.
+Theorem C07_rpc_cancel_never_waits_for_the_peer : forall strict ls s, rrun strict r_init ls = Some s ->
+  k_new (r_k s) = true -> k_ctx (r_k s) = true -> k_sig (r_k s) = false ->
+  exists l, In l [CWatch; CRemove; CPublish] /\ exists s', rstep strict s (LK l) = Some s'.
+Proof. exact rpc_cancel_never_waits_for_the_peer. Qed.
+Print Assumptions C07_rpc_cancel_never_waits_for_the_peer.
+Theorem C07_rpc_client_internal_steps_terminate : forall k l k' em,
+  kinv k = true -> In l k_internal -> kstep k l = Some (k', em) -> k_measure k' < k_measure k.
+Proof. exact rpc_client_internal_steps_terminate. Qed.
+Print Assumptions C07_rpc_client_internal_steps_terminate.
